@@ -85,6 +85,9 @@ func getDescription(raw interface{}) string {
 		}
 	case map[string]interface{}:
 		desc = getMapValueString(node, "Description.Value")
+		if d, ok := node["Description"].(map[string]interface{}); ok && d != nil && desc == "" {
+			return `""`
+		}
 	}
 	if desc != "" {
 		sep := ""
